@@ -23,7 +23,7 @@ type Chain struct {
 
 func ChainExprs(n int) []Chain {
 	var out []Chain
-	bases := []string{"$a", "A"}
+	bases := []string{"$a", "A", "(new A)"}
 	var rec func(base string, ops []ChainOp, expr string)
 	rec = func(base string, ops []ChainOp, expr string) {
 		if len(ops) > 0 {
